@@ -183,7 +183,8 @@ def r4(ctx):
         f = method_or_fail(ctx, ci, '_validate')
         ev = evaluator(ctx)
         s = ev.symbolic_instance(ci)
-        v = sym('value') if cname in ('PositiveScalar', 'PositiveScalarAngle') else Obj('value', {}, 'value')
+        v = Obj('value', {}, 'value')
+        v.typed = False
         out = ev.run(f, [s, v], {})
         conds = [ev.conj(pc) for pc, n, _ in out.raises]
         names = {n for pc, n, _ in out.raises}
